@@ -1506,11 +1506,9 @@ fn vf_driver_c16() {
     }
     eprintln!("[C16] random multi-level plans: {} cases, {:.2} s", ctx.report.cases - before, t2.elapsed().as_secs_f64());
 
-    // CANDIDATE-FINDING C16-F3: merge_includes() replaces A2ML.a2ml_text by the text computed by the A2ML parser; when the
-    // A2ML block could not be parsed (strict parsing off: one diagnostic) that text is empty, so merge_includes() erases the
-    // A2ML block of a file that has no include at all.  Outside the quantifier (the generated documents have valid A2ML),
-    // therefore only run on request.
-    if no_carve_out() {
+    // C16-F3 (repaired in /repo: "fix: merge_includes() erased the text of an A2ML block that could not be parsed"): kept as a
+    // regression case: merge_includes() must leave a model without includes unchanged, also when its A2ML block is unparsable.
+    {
         let text = "ASAP2_VERSION 1 71 /begin PROJECT p \"\" /begin MODULE m \"\" /begin A2ML\nthis is not a2ml\n/end A2ML /end MODULE /end PROJECT";
         ctx.report.case(text.as_bytes());
         let t = text.to_string();
